@@ -117,6 +117,25 @@ def enclosing_iterations(func_node, node):
     return path
 
 
+def unsorted_groupby(func_node):
+    """calls of itertools.groupby whose iterable is not `sorted(..)` by the same key: groupby only merges
+    *consecutive* equal keys, so a key that comes back later starts a new group -> [call]"""
+    out = []
+    for c in walk_calls(func_node.body):
+        nm = call_name(c)
+        if nm != "groupby" or not c.args:
+            continue
+        it = c.args[0]
+        keyf = {k.arg: k.value for k in c.keywords}.get("key") or (c.args[1] if len(c.args) > 1 else None)
+        ok = False
+        if isinstance(it, ast.Call) and call_name(it) == "sorted":
+            skey = {k.arg: k.value for k in it.keywords}.get("key")
+            ok = (skey is None and keyf is None) or (skey is not None and keyf is not None and utext(skey) == utext(keyf))
+        if not ok:
+            out.append(c)
+    return out
+
+
 def counted(expr):
     """`len([.. for v in IT if C..])`, `sum(1 for v in IT if C..)`, `sum([1 for ..])`: (target text, iterable
     text, [condition texts]); None for anything else"""
